@@ -23,7 +23,8 @@ from .weights import strip
 LEVEL_TEXT = ('Static whole-use dataflow analysis. Decides that no proof element and no statement field is ignored by the verifier: each one reaches the '
               'transcript (before a challenge that is used) and/or the final multiscalar check, whole and in order, with the length guards that make '
               'positional pairing meaningful, and that dual representations are built from one another. Does not decide inequality of group elements '
-              'after an alteration.')
+              'after an alteration.'
+              " Also runs C04's transcript-schedule rules and the stored-field rule of the statement constructor.")
 ASSUMPTIONS = ['a datum that enters the Fiat-Shamir transcript or the gate MSM with a non-zero random coefficient changes the verdict with overwhelming probability when altered']
 RULE_TEXT = 'one obligation per component and use kind; non-trivial = decided from data / argument terms'
 
